@@ -44,7 +44,7 @@ var routes = map[string]routeInfo{
 }
 const caseHeader = "X-Case" // push only: the one carrier a push target has for telling deliveries apart
 
-func dsl(slot int, backend string) string {
+func dsl(slot int, backend string, extra string) string {
 	base := 20000 + slot*10
 	q := "queue { backend " + backend + " }"
 	fwd := `auth forward "http://192.0.2.1/check" { copy_headers "` + fwdCopy[0] + `" copy_headers "` + fwdCopy[1] + `" }`
@@ -62,7 +62,7 @@ defaults {
 /d  { %[5]s deliver "%[7]s" { } }
 /d8 { %[5]s max_body 8 deliver "%[8]s" { } }
 /df { %[5]s %[6]s deliver "%[9]s" { } }
-`, base, base+1, base+2, base+3, q, fwd, routes["std"].url, routes["small"].url, routes["fwd"].url)
+`+extra, base, base+1, base+2, base+3, q, fwd, routes["std"].url, routes["small"].url, routes["fwd"].url)
 }
 
 func grpcAddr(slot int) string { return fmt.Sprintf("127.0.0.1:%d", 20000+slot*10+2) }
@@ -90,12 +90,14 @@ type failure struct {
 	Case     int
 	With     []int // other cases of the batch the failure depends on (history-dependent failures)
 	Weak     bool  // history-dependent, but the other message is not in this batch (earlier batch of the same process)
+	Ops      []string // bounded-queue histories: the operation sequence that was run
 }
 
 type batchResult struct {
 	fails                                                         []failure
 	infra                                                         []string
 	evals, accepts, rejects, boots, reopens, pubUnaccepted, fwdCalls int64
+	optRefused, histories, histNoop, histAccepts, histRefusals, refusedOnFull, refusedAfterEvictable, survivorsDelivered int64
 	via                                                           map[string]int64
 	distinct                                                      map[string]struct{}
 	samples                                                       []any
@@ -124,6 +126,14 @@ type run struct {
 	store   queue.Store
 	fwdSeen atomic.Int64
 	failed  map[string]int
+
+	// bounded-queue histories (bounded_test.go)
+	q        *qconf         // queue_limits / retention configuration (nil: defaults)
+	ops      []string       // the history being run
+	ids      map[string]int // message id -> case index, learned when the message was accepted
+	loose    bool           // messages may legitimately leave the queue (drop_oldest, ack): observe what is there
+	keyTag   string         // appended to violation keys
+	ownStore bool           // the harness opens the store (push flows; memory pressure limits)
 }
 
 func (x *run) infra(format string, a ...any) {
@@ -134,11 +144,15 @@ func (x *run) fail(i int, key, msg string, with ...int) { x.failW(i, key, msg, f
 
 func (x *run) failW(i int, key, msg string, weak bool, with ...int) {
 	c := x.cases[i]
-	key = fmt.Sprintf("%s:%s:%s:%s", key, c.In, x.backend, x.flow)
+	key = fmt.Sprintf("%s:%s:%s:%s%s", key, c.In, x.backend, x.flow, x.keyTag)
 	for _, j := range with {
 		msg += "\nafter " + describe(x.cases[j], x.bodies[j])
 	}
 	f := failure{Key: key, Msg: msg + "\n" + describe(c, x.bodies[i]), Case: i, With: with, Weak: weak}
+	if x.q != nil {
+		f.Ops = append([]string{}, x.ops...)
+		f.Msg += fmt.Sprintf("\nhistory: queue_limits{max_depth %d drop_policy %s} delivered_retention=%v pressure_limit=%v ops=%v (message %d of the history)", x.q.Depth, x.q.Policy, x.q.Retention, x.q.Pressure, x.ops, i)
+	}
 	if at, seen := x.failed[key]; seen { // one report per class and batch; a self-contained one replaces a weak one
 		if x.res.fails[at].Weak && !weak {
 			x.res.fails[at] = f
@@ -180,6 +194,7 @@ func runBatch(slot int, backend, flow string, cases []mcase) (res *batchResult) 
 		}
 	}
 	if flow == flowPush {
+		x.ownStore = true
 		x.clk = &vclock{}
 		x.clk.ns.Store(time.Date(2026, 1, 1, 0, 0, 0, 0, time.UTC).UnixNano())
 		if !x.openStore() {
@@ -206,10 +221,33 @@ func (x *run) openStore() bool {
 	switch x.backend {
 	case "memory":
 		if x.store == nil {
-			x.store = queue.NewMemoryStore(queue.WithNowFunc(x.clk.Now))
+			var opts []queue.MemoryOption
+			if x.clk != nil {
+				opts = append(opts, queue.WithNowFunc(x.clk.Now))
+			}
+			if x.q != nil {
+				opts = append(opts, queue.WithQueueLimits(x.q.Depth, x.q.Policy))
+				if x.q.Retention {
+					opts = append(opts, queue.WithDeliveredRetention(time.Hour))
+				}
+				if x.q.Pressure {
+					opts = append(opts, queue.WithMemoryPressureLimits(1, 0))
+				}
+			}
+			x.store = queue.NewMemoryStore(opts...)
 		}
 	case "sqlite":
-		st, err := queue.NewSQLiteStore(filepath.Join(x.dir, "push.db"), queue.WithSQLiteNowFunc(x.clk.Now))
+		var opts []queue.SQLiteOption
+		if x.clk != nil {
+			opts = append(opts, queue.WithSQLiteNowFunc(x.clk.Now))
+		}
+		if x.q != nil {
+			opts = append(opts, queue.WithSQLiteQueueLimits(x.q.Depth, x.q.Policy))
+			if x.q.Retention {
+				opts = append(opts, queue.WithSQLiteDeliveredRetention(time.Hour))
+			}
+		}
+		st, err := queue.NewSQLiteStore(filepath.Join(x.dir, "push.db"), opts...)
 		if err != nil {
 			x.infra("open sqlite: %v", err)
 			return false
@@ -220,7 +258,7 @@ func (x *run) openStore() bool {
 }
 
 func (x *run) boot() bool {
-	a, err := app.VerifBoot(app.VerifBootOptions{Dir: x.dir, ConfigText: dsl(x.slot, x.backend), Store: x.store})
+	a, err := app.VerifBoot(app.VerifBootOptions{Dir: x.dir, ConfigText: dsl(x.slot, x.backend, x.q.dsl()), Store: x.store})
 	if err != nil {
 		x.infra("boot: %v", err)
 		return false
@@ -231,7 +269,11 @@ func (x *run) boot() bool {
 		x.infra("compiled default max_body is %d, the harness assumes the documented %d", a.Running.Defaults.MaxBodyBytes, defaultMaxBody)
 		return false
 	}
-	if x.flow != flowPush && a.Backend != x.backend {
+	if x.q != nil && (a.Running.QueueLimits.MaxDepth != x.q.Depth || a.Running.QueueLimits.DropPolicy != x.q.Policy || (a.Running.DeliveredRetention.MaxAge > 0) != x.q.Retention) {
+		x.infra("compiled queue_limits %+v / delivered_retention %+v do not match the history configuration %+v", a.Running.QueueLimits, a.Running.DeliveredRetention, *x.q)
+		return false
+	}
+	if !x.ownStore && a.Backend != x.backend {
 		x.infra("newQueueStore selected backend %q, want %q", a.Backend, x.backend)
 		return false
 	}
@@ -286,7 +328,7 @@ func (x *run) shutdown() {
 // restart closes the application (and with it the SQLite store) and boots it again on the same files.
 func (x *run) restart() bool {
 	x.shutdown()
-	if x.flow == flowPush && !x.openStore() {
+	if x.ownStore && !x.openStore() {
 		return false
 	}
 	x.res.reopens++
@@ -379,17 +421,16 @@ func (x *run) enqueueAll() bool {
 			case !want && code != http.StatusRequestEntityTooLarge:
 				x.fail(i, "oversize-not-413", fmt.Sprintf("ingress answered %d (not 413) for a body of %d bytes, max_body is %d", code, len(body), maxBodyOf(c.Route)))
 			}
+		case "store":
+			// what an in-process producer (the MCP publish tool) does: Store.Enqueue with a prepared envelope
+			err := x.in.a.Store.Enqueue(x.envelope(i))
+			x.acc[i] = err == nil
+			code = 0
+			if err != nil {
+				x.fail(i, "store-enqueue-refused", fmt.Sprintf("Store.Enqueue refused a message on an unbounded queue: %v", err))
+			}
 		case "publish":
-			hs := map[string]string{}
-			for _, l := range x.lines[i] {
-				hs[l.N] = l.V
-			}
-			item := map[string]any{"id": idOf(i), "route": x.routeOf(c), "payload_b64": base64.StdEncoding.EncodeToString(body)}
-			if len(hs) > 0 {
-				item["headers"] = hs
-			}
-			jb, _ := json.Marshal(map[string]any{"items": []any{item}})
-			rec, err := serve(x.in.a.Admin, rawJSON("POST", "/messages/publish", "X-Hookaido-Audit-Reason: c07\r\n", jb), "192.0.2.77:4000")
+			rec, err := x.publish([]int{i})
 			if err != nil {
 				x.infra("publish request %d does not parse: %v", i, err)
 				return false
@@ -397,6 +438,9 @@ func (x *run) enqueueAll() bool {
 			code = rec.Code
 			x.acc[i] = code >= 200 && code < 300
 			switch {
+			case want && !x.acc[i] && c.Opt && code == http.StatusBadRequest:
+				x.res.optRefused++ // a value that is not a valid HTTP field value may be refused; not judged (see assumptions)
+				want = false
 			case want && !x.acc[i] && len(body) >= 1<<20:
 				x.res.pubUnaccepted++ // admin request-size cap; not judged (see assumptions)
 				want = false
@@ -415,6 +459,47 @@ func (x *run) enqueueAll() bool {
 		x.note(i, "enqueue", fmt.Sprintf("status=%d", code))
 	}
 	return true
+}
+
+// publish sends one admin publish request with the given cases as items.
+func (x *run) publish(idx []int) (*httptest.ResponseRecorder, error) {
+	var items []any
+	for _, i := range idx {
+		c := x.cases[i]
+		hs := map[string]string{}
+		for _, l := range x.lines[i] {
+			hs[l.N] = l.V
+		}
+		id := c.ID
+		if id == "" {
+			id = idOf(i)
+		}
+		item := map[string]any{"id": id, "route": x.routeOf(c), "payload_b64": base64.StdEncoding.EncodeToString(x.bodies[i])}
+		if len(hs) > 0 {
+			item["headers"] = hs
+		}
+		items = append(items, item)
+	}
+	jb, _ := json.Marshal(map[string]any{"items": items})
+	return serve(x.in.a.Admin, rawJSON("POST", "/messages/publish", "X-Hookaido-Audit-Reason: c07\r\n", jb), "192.0.2.77:4000")
+}
+
+// envelope is the prepared envelope of a store-direct case.
+func (x *run) envelope(i int) queue.Envelope {
+	c := x.cases[i]
+	hs := map[string]string{}
+	for _, l := range x.lines[i] {
+		hs[l.N] = l.V
+	}
+	id := c.ID
+	if id == "" {
+		id = idOf(i)
+	}
+	target := "pull" // the target name of pull routes
+	if x.flow == flowPush {
+		target = routes[c.Route].url
+	}
+	return queue.Envelope{ID: id, Route: x.routeOf(c), Target: target, Payload: append([]byte{}, x.bodies[i]...), Headers: hs}
 }
 
 // note records the distinct-case key (and a few samples) of one evaluation.
@@ -439,6 +524,8 @@ func (x *run) note(i int, via, phase string) {
 
 type item struct {
 	ID, Lease  string
+	Target     string
+	State      string
 	Payload    []byte
 	PayloadErr string
 	Headers    map[string]string
@@ -447,8 +534,11 @@ type item struct {
 
 // identify maps a pulled/listed item to its case index (-1: unknown).
 func (x *run) identify(it item) int {
+	if n, ok := x.ids[it.ID]; ok {
+		return n
+	}
 	if strings.HasPrefix(it.ID, "c07-") {
-		if n, err := strconv.Atoi(it.ID[4:]); err == nil && n >= 0 && n < len(x.cases) && x.cases[n].In == "publish" {
+		if n, err := strconv.Atoi(it.ID[4:]); err == nil && n >= 0 && n < len(x.cases) && x.cases[n].In != "ingress" && x.cases[n].ID == "" {
 			return n
 		}
 	}
@@ -566,6 +656,8 @@ func (x *run) adminList(route string) ([]item, bool) {
 	var resp struct {
 		Items []struct {
 			ID         string            `json:"id"`
+			Target     string            `json:"target"`
+			State      string            `json:"state"`
 			PayloadB64 string            `json:"payload_b64"`
 			Headers    map[string]string `json:"headers"`
 			Trace      map[string]string `json:"trace"`
@@ -578,7 +670,7 @@ func (x *run) adminList(route string) ([]item, bool) {
 	var out []item
 	for _, it := range resp.Items {
 		p, perr := decodeB64(it.PayloadB64)
-		out = append(out, item{ID: it.ID, Payload: p, PayloadErr: perr, Headers: it.Headers, Trace: it.Trace})
+		out = append(out, item{ID: it.ID, Target: it.Target, State: it.State, Payload: p, PayloadErr: perr, Headers: it.Headers, Trace: it.Trace})
 	}
 	return out, true
 }
@@ -625,6 +717,9 @@ func (x *run) checkItems(items []item, via, phase, routeKind string) bool {
 		x.check(i, via, phase, it.Payload, it.PayloadErr, multi(it.Headers), true)
 	}
 	for i, c := range x.cases {
+		if x.loose && seen[i] <= 1 {
+			continue
+		}
 		if c.Route == routeKind && x.acc[i] && seen[i] != 1 {
 			x.infra("%s %s: accepted case %d seen %d times (%s)", via, phase, i, seen[i], describe(c, x.bodies[i]))
 			return false
@@ -645,10 +740,12 @@ func (x *run) pullHTTP(endpoint, op string, body any) (*httptest.ResponseRecorde
 	return rec, true
 }
 
-func (x *run) dequeue(via, endpoint string) ([]item, bool) {
+func (x *run) dequeue(via, endpoint string) ([]item, bool) { return x.dequeueN(via, endpoint, batchMax) }
+
+func (x *run) dequeueN(via, endpoint string, batch int) ([]item, bool) {
 	var out []item
 	if via == "pull-http" {
-		rec, ok := x.pullHTTP(endpoint, "dequeue", map[string]any{"batch": batchMax})
+		rec, ok := x.pullHTTP(endpoint, "dequeue", map[string]any{"batch": batch})
 		if !ok {
 			return nil, false
 		}
@@ -677,7 +774,7 @@ func (x *run) dequeue(via, endpoint string) ([]item, bool) {
 	}
 	ctx, cancel := context.WithTimeout(metadata.AppendToOutgoingContext(context.Background(), "authorization", "Bearer g1"), 2*time.Minute)
 	defer cancel()
-	resp, err := x.in.worker.Dequeue(ctx, &workerapipb.DequeueRequest{Endpoint: endpoint, Batch: batchMax})
+	resp, err := x.in.worker.Dequeue(ctx, &workerapipb.DequeueRequest{Endpoint: endpoint, Batch: uint32(batch)})
 	if err != nil {
 		x.infra("grpc dequeue: %v", err)
 		return nil, false
@@ -893,6 +990,9 @@ func (x *run) pushFlow() {
 			k++
 		}
 	}
+	if x.loose { // bounded queue: what is queued now is what the dispatcher will deliver
+		k = x.inState(queue.StateQueued)
+	}
 	t := &target{}
 	t.set(500, "first-delivery")
 	d := x.startDispatcher(t)
@@ -974,7 +1074,7 @@ func (x *run) pushFlow() {
 		}
 		x.check(i, "push", dl.phase, dl.body, "", map[string][]string(dl.header), false)
 	}
-	if len(x.res.fails) == 0 {
+	if len(x.res.fails) == 0 && !x.loose {
 		for i := range x.cases {
 			if x.acc[i] && (perCase[i]["first-delivery"] != 1 || perCase[i]["nack+redelivery"] != 1 || perCase[i][phase] != 1) {
 				x.infra("push: case %d delivered %v times, want once per phase", i, perCase[i])
